@@ -141,8 +141,59 @@ def run_case(c):
     return [(int(k), kind, detail) for k, kind, detail in problems]
 
 
+# ------------------------------------------------------------------ exact special sets under exact (power of two) scaling
+SURF_EXPONENTS = (-30, -20, -10, 10, 20, 30)   # 2^-30 = 9.3e-10 ... 2^30 = 1.07e9
+
+
+def run_surface(c):
+    """Multiplying all lengths by a power of two is exact in binary floating point: every comparison between
+    coordinates keeps its outcome, so the inside/outside decision (read through J) at EVERY cell of the special-set
+    lattice - exact faces, edges, corners, rims, cut planes and their one-ulp neighbours - must be identical at all
+    scales; a difference can only come from an absolute length hidden in the code. Local frame = global frame."""
+    from mc.oracles import geometry as geo
+    from mc.props import C02
+
+    cls, ri = c["cls"], c["regime"]
+    par = C02.REGIMES[cls][ri]
+    loc = geo.cells(cls, par, "full")
+    cl = geo.classify(cls, par, loc)
+    pol = (0.2, -0.3, 0.9)
+    out = {}
+    problems = []
+    for e in (0,) + SURF_EXPONENTS:
+        s = 2.0 ** e
+        par2 = {}
+        for k, v in par.items():
+            if k == "faces":
+                par2[k] = v
+            elif k == "dimension" and cls == "CylinderSegment":
+                d = np.array(v, float)
+                par2[k] = (d[0] * s, d[1] * s, d[2] * s, d[3], d[4])
+            else:
+                par2[k] = (np.array(v, float) * s).tolist() if not np.isscalar(v) else v * s
+        try:
+            with common.time_limit(120):
+                src = C02.make(cls, par2, pol, ((0.0, 0.0, 0.0), (0.0, 0.0, 0.0)))
+                out[e] = np.asarray(src.getJ(loc * s)).reshape(-1, 3)
+        except Exception as ex:
+            problems.append((e, "surface-raised", f"{type(ex).__name__}: {ex}"[:120]))
+            continue
+        if e == 0:
+            continue
+        diff = np.any(out[e] != out[0], axis=1) & np.isfinite(out[e]).all(1) & np.isfinite(out[0]).all(1)
+        for lab, sel in (("on-surface", cl == 0), ("inside", cl == 1), ("outside", cl == -1)):
+            js = np.where(diff & sel)[0]
+            if len(js):
+                i = int(js[0])
+                problems.append((e, f"J-mask-changes-with-exact-scaling|{lab}",
+                                 f"{len(js)} {lab} cells, first at local {loc[i].tolist()}: J(1)={out[0][i].tolist()} J(2^{e})={out[e][i].tolist()}"))
+    return [(int(k), kind, detail) for k, kind, detail in problems], len(loc) * (len(SURF_EXPONENTS) + 1)
+
+
 def work(c):
     try:
+        if c.get("part") == "surface":
+            return run_surface(c)[0]
         return run_case(c)
     except Exception as e:
         import traceback
@@ -172,10 +223,22 @@ def run(tier, seed):
     for cls in CLASSES:
         for ri in range(nregimes(cls) if tier == "thorough" else min(2, nregimes(cls))):
             cases.append({"cls": cls, "regime": ri, "ks": ks, "mags": [1.0, 1e-12, 1e12], "maxcells": 150 if tier == "quick" else 400})
-    res = common.pmap(work, cases, chunk=1)
+    from mc.props import C02
+
+    scases = [{"part": "surface", "cls": cls, "regime": ri} for cls in C02.MAGNETS for ri in range(len(C02.REGIMES[cls]))]
+    res = common.pmap(work, cases + scases, chunk=1)
     viols, harness = [], []
     n = 0
-    for c, r in zip(cases, res):
+    for c, r in zip(cases + scases, res):
+        if c.get("part") == "surface":
+            n += len(SURF_EXPONENTS)
+            for k, kind, detail in r:
+                if kind == "HARNESS":
+                    harness.append(f"{c['cls']}: {detail}")
+                    continue
+                viols.append({"key": f"C12|{c['cls']}|surface|2^{k}|{kind}", "what": f"{c['cls']} regime {c['regime']} scale 2^{k}: {kind}: {detail}",
+                              "case": c, "observed": [k, kind, detail]})
+            continue
         n += len(c["ks"])
         for k, kind, detail in r:
             if kind == "HARNESS":
@@ -195,7 +258,7 @@ def run(tier, seed):
         "rule": "one evaluation = one vectorised field call at one scale / excitation magnitude over all observer cells of a "
                 "(class, regime); distinct non-trivial = (class, regime, decade != 0)",
         "samples": [cases[0], cases[len(cases) // 2], cases[-1]],
-        "exhaustive": True, "decades": ks, "classes": CLASSES, "excitation_magnitudes": [1e-12, 1.0, 1e12],
+        "exhaustive": True, "decades": ks, "surface_lattice_cases": len(scases), "surface_scale_exponents_base2": list(SURF_EXPONENTS), "classes": CLASSES, "excitation_magnitudes": [1e-12, 1.0, 1e12],
     }
     return {"coverage": cov, "violations": viols, "harness_errors": harness[:5],
             "assumptions": ["cells are those of C01 (seed set 0); tolerance 1e-7 (1e-5 next to edge extension lines) relative to "
